@@ -37,7 +37,7 @@ impl PathRewritePlugin for FailingRewrite {
 }
 pub struct WrapDict {
     pub inner: JapaneseDictionary,
-    pub prw: Vec<Box<dyn PathRewritePlugin + Sync + Send>>,
+    pub prw: Option<Vec<Box<dyn PathRewritePlugin + Sync + Send>>>, // None: the plugins the dictionary was configured with
 }
 impl DictionaryAccess for WrapDict {
     fn grammar(&self) -> &Grammar<'_> {
@@ -53,7 +53,10 @@ impl DictionaryAccess for WrapDict {
         self.inner.oov_provider_plugins()
     }
     fn path_rewrite_plugins(&self) -> &[Box<dyn PathRewritePlugin + Sync + Send>] {
-        &self.prw
+        match &self.prw {
+            Some(p) => p,
+            None => self.inner.path_rewrite_plugins(),
+        }
     }
 }
 
@@ -241,6 +244,7 @@ struct Impl {
     tok: StatefulTokenizer<WD>,
     lists: Vec<MorphemeList<WD>>,
     events: Vec<Ev>,
+    count_only: bool, // collect events carry only the number of nodes (dictionaries not described by a Lexica)
 }
 
 fn analyse(tok: &mut StatefulTokenizer<WD>, text: &str) -> u8 {
@@ -274,7 +278,7 @@ fn exec(im: &mut Impl, wd: &WD, lx: &Lexica, pool: &[Txt], op: &Op) {
             let l = &mut im.lists[*k];
             match catch(|| l.collect_results(tok)) {
                 Ok(Ok(())) => {
-                    let n = nodes_of(&im.lists[*k], lx).iter().map(|x| (x.0, x.1, x.4)).collect();
+                    let n = if im.count_only { vec![(0, 0, 0); im.lists[*k].len()] } else { nodes_of(&im.lists[*k], lx).iter().map(|x| (x.0, x.1, x.4)).collect() };
                     im.events.push((1, 0, n))
                 }
                 _ => im.events.push((1, 2, vec![])),
@@ -468,13 +472,13 @@ struct World {
 fn world(lx: Lexica, cfg: &str) -> Result<World, String> {
     let sys_csv = lx.csv(0);
     let user_csvs: Vec<String> = (1..lx.ndics).map(|k| lx.csv(k)).collect();
-    let wd = Rc::new(WrapDict { inner: build_dict(&sys_csv, &user_csvs, cfg)?, prw: vec![Box::new(FailingRewrite)] });
-    let plain = Rc::new(WrapDict { inner: build_dict(&sys_csv, &user_csvs, cfg)?, prw: vec![] });
+    let wd = Rc::new(WrapDict { inner: build_dict(&sys_csv, &user_csvs, cfg)?, prw: Some(vec![Box::new(FailingRewrite)]) });
+    let plain = Rc::new(WrapDict { inner: build_dict(&sys_csv, &user_csvs, cfg)?, prw: Some(vec![]) });
     Ok(World { lx, sys_csv, user_csvs, wd, plain })
 }
 
 fn run_case(sink: &mut Sink, w: &World, pool: &[Txt], m0: u8, ops: &[Op], probe: usize, probe_list: usize, verbose: bool) {
-    let mut im = Impl { tok: StatefulTokenizer::new(w.wd.clone(), mode_of(m0)), lists: vec![], events: vec![] };
+    let mut im = Impl { tok: StatefulTokenizer::new(w.wd.clone(), mode_of(m0)), lists: vec![], events: vec![], count_only: false };
     let mut all: Vec<Op> = ops.to_vec();
     all.push(Op::Analyse(probe));
     all.push(Op::Collect(probe_list));
@@ -749,15 +753,240 @@ fn python_stage(sink: &mut Sink, args: &Args, rng: &mut Rng, replay: Option<Valu
     }
 }
 
+// ---------------------------------------------------------------- the INSTANTIATED machine (Proofs/TokStateConcrete.v)
+// Small dictionaries and texts of at most 12 characters, shipped as tables the way the end-to-end stream of C01 ships
+// them (harness/src/c01.rs e2e_case): trie + word-id table bytes, word parameters, word infos, character classes,
+// connection matrix, OOV / path-rewrite plugin settings.  The Coq side runs the state machine whose stages are the
+// concrete models over the whole history and compares outcomes, collected lengths and the probe (byte ranges + word ids).
+fn conc_csv(rng: &mut Rng) -> (String, Vec<String>) {
+    let pool = ["東京", "都", "に", "行", "く", "キロ", "アイ", "ab", "c", "大学", "ー", "さ", "府", "é"];
+    let digits = ["1", "2", "0"];
+    let noun = "名詞,普通名詞,一般,*,*,*";
+    let num = "名詞,数詞,*,*,*,*";
+    let mut rows: Vec<String> = vec![];
+    let mut words: Vec<String> = vec![];
+    let mut base: Vec<(usize, String)> = vec![];
+    let push = |rows: &mut Vec<String>, key: &str, pos: &str, cost: i64, l: u64, r: u64, mode: &str, a: &str, b: &str| {
+        rows.push(format!("{k},{l},{r},{c},{k},{p},ヨミ,{k},*,{m},{a},{b},*,*", k = key, l = l, r = r, c = cost, p = pos, m = mode, a = a, b = b));
+    };
+    for d in digits.iter().take(1 + rng.below(3) as usize) {
+        base.push((rows.len(), d.to_string()));
+        push(&mut rows, d, num, 2000 + rng.below(1000) as i64, 9, 9, "A", "*", "*");
+        words.push(d.to_string());
+    }
+    for _ in 0..3 + rng.below(5) {
+        let w = *rng.pick(&pool);
+        if base.iter().any(|(_, x)| x == w) {
+            continue;
+        }
+        base.push((rows.len(), w.to_string()));
+        push(&mut rows, w, noun, 1000 + rng.below(5000) as i64, rng.below(9), rng.below(9), "A", "*", "*");
+        words.push(w.to_string());
+    }
+    for _ in 0..2 + rng.below(3) {
+        let k = 2 + rng.below(2) as usize;
+        let units: Vec<(usize, String)> = (0..k).map(|_| rng.pick(&base).clone()).collect();
+        let surface: String = units.iter().map(|u| u.1.as_str()).collect();
+        if words.iter().any(|w| *w == surface) || surface.chars().count() > 6 {
+            continue;
+        }
+        let a = units.iter().map(|u| u.0.to_string()).collect::<Vec<_>>().join("/");
+        let b = if rng.chance(1, 2) { a.clone() } else { "*".to_string() };
+        let pos = if surface.chars().all(|c| c.is_ascii_digit()) { num } else { noun };
+        push(&mut rows, &surface, pos, rng.below(3000) as i64, rng.below(9), rng.below(9), "C", &a, &b);
+        words.push(surface);
+    }
+    (rows.join("\n"), words)
+}
+
+fn conc_text(rng: &mut Rng, words: &[String]) -> String {
+    let extra = ["ーー", "アイウ", "カ", "12", "1,2", "x", "に", " ", "キロメ"];
+    loop {
+        let mut s = String::new();
+        for _ in 0..1 + rng.below(4) {
+            if rng.chance(2, 3) {
+                s.push_str(rng.pick(words).as_str());
+            } else {
+                s.push_str(*rng.pick(&extra));
+            }
+        }
+        if s.chars().count() <= 12 {
+            return s;
+        }
+    }
+}
+
+struct ConcWorld {
+    csv: String,
+    psm: bool,
+    rewrite: u8,
+    wd: WD,
+    lex_hex: (String, String),
+    nwords: u32,
+}
+
+fn conc_world(csv: &str, psm: bool, rewrite: u8) -> Result<ConcWorld, String> {
+    use sudachi::dic::storage::{Storage, SudachiDicData};
+    let sys = crate::c04::build_system(csv)?;
+    let (trie, tbl) = crate::c04::sections(&sys, true);
+    let pos = json!(["名詞", "普通名詞", "一般", "*", "*", "*"]);
+    let num = |n: bool| json!({"class": "com.worksap.nlp.sudachi.JoinNumericPlugin", "enableNormalize": n});
+    let kat = |m: u32| json!({"class": "com.worksap.nlp.sudachi.JoinKatakanaOovPlugin", "oovPOS": pos, "minLength": m});
+    let rw = match rewrite {
+        0 => vec![],
+        1 => vec![num(true)],
+        2 => vec![kat(3)],
+        3 => vec![num(false), kat(1)],
+        _ => vec![num(true), kat(3)],
+    };
+    let input = if psm { vec![json!({"class": "com.worksap.nlp.sudachi.ProlongedSoundMarkPlugin", "prolongedSoundMarks": ["ー", "-", "⁓", "〜", "〰"], "replacementSymbol": "ー"})] } else { vec![] };
+    let cfgj = json!({"path": format!("{}/sudachi/tests/resources/", repo()), "characterDefinitionFile": "char.def", "inputTextPlugin": input,
+        "oovProviderPlugin": [{"class": "com.worksap.nlp.sudachi.SimpleOovPlugin", "oovPOS": pos, "leftId": 8, "rightId": 8, "cost": 6000}],
+        "pathRewritePlugin": rw});
+    let cfg = sudachi::config::ConfigBuilder::from_bytes(cfgj.to_string().as_bytes()).map_err(|e| format!("{:?}", e))?.build();
+    let dict = JapaneseDictionary::from_cfg_storage(&cfg, SudachiDicData::new(Storage::Owned(sys))).map_err(|e| format!("{:?}", e))?;
+    Ok(ConcWorld { csv: csv.to_string(), psm, rewrite, wd: Rc::new(WrapDict { inner: dict, prw: None }), lex_hex: (crate::c04::hexz(&trie), crate::c04::hex(&tbl)), nwords: csv.lines().count() as u32 })
+}
+
+fn conc_case(sink: &mut Sink, w: &ConcWorld, pool: &[Txt], m0: u8, ops: &[Op], probe: usize, probe_list: usize, verbose: bool) {
+    use sudachi::dic::word_id::WordId;
+    let lx = Lexica::default();
+    let mut im = Impl { tok: StatefulTokenizer::new(w.wd.clone(), mode_of(m0)), lists: vec![], events: vec![], count_only: true };
+    for op in ops {
+        exec(&mut im, &w.wd, &lx, pool, op);
+    }
+    let history: Vec<Ev> = im.events.clone();
+    let probe_text = pool[probe].get();
+    let pflag = analyse(&mut im.tok, &probe_text);
+    let desc = json!({"kind": "c10-concrete", "csv": w.csv, "psm": w.psm, "rewrite": w.rewrite, "pool": pool.iter().map(|t| t.json()).collect::<Vec<_>>(),
+        "initial_mode": m0, "ops": ops.iter().map(op_json).collect::<Vec<_>>(), "probe": probe, "probe_list": probe_list});
+    if pflag == 2 {
+        sink.tag("concrete:probe_panicked(not compared)");
+        sink.case_rust_only(desc, false);
+        return;
+    }
+    let implp: Option<Vec<(usize, usize, u32)>> = if pflag == 0 {
+        let tok = &mut im.tok;
+        let l = &mut im.lists[probe_list];
+        match catch(|| l.collect_results(tok)) {
+            Ok(Ok(())) => Some(im.lists[probe_list].iter().map(|m| (m.begin(), m.end(), m.word_id().as_raw())).collect()),
+            _ => {
+                sink.tag("concrete:probe_collect_failed(not compared)");
+                sink.case_rust_only(desc, false);
+                return;
+            }
+        }
+    } else {
+        None
+    };
+    if verbose {
+        println!("history events (kind, outcome, nodes): {:?}\nprobe {:?} -> {:?}", history.iter().map(|e| (e.0, e.1, e.2.len())).collect::<Vec<_>>(), probe_text, implp);
+    }
+    // tables
+    let g = w.wd.inner.grammar();
+    let lex = w.wd.inner.lexicon();
+    let pos_noun = g.get_part_of_speech_id(&["名詞", "普通名詞", "一般", "*", "*", "*"]).unwrap_or(0);
+    let pos_num = g.get_part_of_speech_id(&["名詞", "数詞", "*", "*", "*", "*"]).unwrap_or(0);
+    let (mut params, mut winfos, mut hw, mut ua, mut ub) = (vec![], vec![], vec![], vec![], vec![]);
+    for i in 0..w.nwords {
+        let wid = WordId::new(0, i);
+        let (l, r, c) = lex.get_word_param(wid);
+        params.push(format!("({}, ({}, {}, {}))", cn(i), cn(l as u16), cn(r as u16), cz(c as i64)));
+        let wi = lex.get_word_info(wid).expect("word info");
+        winfos.push(format!("({}, T.mkWI {} {} [] [] {})", cn(i), ctext(wi.surface()), ctext(wi.normalized_form()), cn(wi.pos_id())));
+        hw.push(format!("({}, {})", cn(i), cnu(wi.head_word_length())));
+        ua.push(format!("({}, {})", cn(i), clist(wi.a_unit_split().iter().map(|x| cn(x.as_raw())))));
+        ub.push(format!("({}, {})", cn(i), clist(wi.b_unit_split().iter().map(|x| cn(x.as_raw())))));
+    }
+    let mut chars: Vec<char> = "ー".chars().collect();
+    for t in pool.iter() {
+        if let Txt::Plain(s) = t {
+            chars.extend(s.chars());
+        }
+    }
+    chars.push('あ');
+    chars.sort();
+    chars.dedup();
+    let cats = clist(chars.iter().map(|c| format!("({}, {})", cn(*c as u32), cn(g.character_category.get_category_types(*c).bits()))));
+    let pls = if w.psm { format!("[T.PD_psm {} {}]", ctext("ー-⁓〜〰"), ctext("ー")) } else { "[]".to_string() };
+    let provs = format!("[T.O.PSimple (T.O.mkOov 8 8 6000 {})]", cn(pos_noun));
+    let conn = clist((0..10u16).map(|l| clist((0..10u16).map(|r| cz(g.conn_matrix().cost(l, r) as i64)))));
+    let num = |n: bool| format!("T.Rw.PNumeric {} {}", cbool(n), cn(pos_num));
+    let kat = |m: usize| format!("T.Rw.PKatakana {}%nat {}", m, cn(pos_noun));
+    let rw = match w.rewrite {
+        0 => "[]".to_string(),
+        1 => format!("[{}]", num(true)),
+        2 => format!("[{}]", kat(3)),
+        3 => format!("[{}; {}]", num(false), kat(1)),
+        _ => format!("[{}; {}]", num(true), kat(3)),
+    };
+    let cops: Vec<String> = ops.iter().filter_map(|o| cop(o, pool)).map(|s| format!("({})", s)).collect();
+    let term = format!(
+        "let wi := {} in let hw := {} in let ua := {} in let ub := {} in check_conc (T.mk_tokenizer {} {} [(\"{}\"%string, \"{}\"%string)] {} wi {} {} {} T.Sp.ModeC hw ua ub) wi hw ua ub {} {} {} {} {}",
+        clist(winfos), clist(hw), clist(ua), clist(ub), pls, cats, w.lex_hex.0, w.lex_hex.1, clist(params), provs, conn, rw,
+        cmode(m0), clist(cops),
+        clist(history.iter().map(|e| format!("({}, {}, {})", cn(e.0), cn(e.1), cnu(e.2.len())))),
+        pool[probe].coq(),
+        copt(implp.as_ref().map(|l| clist(l.iter().map(|x| format!("({}, {}, {})", cnu(x.0), cnu(x.1), cn(x.2))))))
+    );
+    let n_an = ops.iter().filter(|o| matches!(o, Op::Analyse(_))).count();
+    sink.tag("concrete_machine_case");
+    sink.tag(&format!("concrete:history_analyses={}", n_an.min(5)));
+    sink.tag(&format!("concrete:rewrite_stack={}", w.rewrite));
+    if w.psm {
+        sink.tag("concrete:prolonged_sound_mark_plugin");
+    }
+    sink.case(term, desc, n_an >= 1 && implp.as_ref().map_or(false, |l| l.len() > 1));
+}
+
+/// the pool of a concrete case: index 0 empty, 1 oversized (start_build rejects it), 2.. texts of at most 12 characters
+fn conc_pool(rng: &mut Rng, words: &[String]) -> Vec<Txt> {
+    let mut pool = vec![Txt::Plain(String::new()), Txt::Oversized, Txt::Plain(conc_text(rng, words))];
+    for _ in 0..5 {
+        pool.push(Txt::Plain(conc_text(rng, words)));
+    }
+    pool
+}
+
+fn concrete_stage(sink: &mut Sink, args: &Args, rng: &mut Rng) {
+    for _ in 0..args.n(20, 150) {
+        let (csv, words) = conc_csv(rng);
+        let w = match catch(|| conc_world(&csv, rng.chance(1, 2), rng.below(5) as u8)) {
+            Ok(Ok(w)) => w,
+            other => {
+                sink.tag("concrete:dictionary_rejected");
+                eprintln!("concrete dictionary not built: {:?}", other.err());
+                continue;
+            }
+        };
+        let pool = conc_pool(rng, &words);
+        for _ in 0..args.n(8, 12) {
+            let ops = gen_ops(rng, &pool);
+            let nlists = ops.iter().filter(|o| matches!(o, Op::NewList)).count();
+            let probe = if rng.chance(1, 10) { rng.below(2) as usize } else { 2 + rng.below((pool.len() - 2) as u64) as usize };
+            conc_case(sink, &w, &pool, rng.below(3) as u8, &ops, probe, rng.below(nlists as u64) as usize, false);
+        }
+    }
+}
+
 pub fn run(args: &Args) {
-    let mut sink = Sink::new("C10", &args.out, &["Model.TokState"], args.seed, &args.tier);
+    let mut sink = Sink::new("C10", &args.out, &["Model.TokState", "Proofs.TokStateConcrete"], args.seed, &args.tier);
     sink.shard_size = 60;
-    sink.rule("per generated dictionary (as in C09, with DefaultInputTextPlugin + length-changing rewrite.def and a path rewrite plugin that fails on '!'): a pool of texts (empty, short, long, oversized for start_build, oversized after rewriting, late-failing) and random sequences of 1..9 operations {set_mode, set_subset (all / random / narrow requests), analyse, new list, collect into a possibly reused list, split_into, lookup, another tokenizer collecting into the shared list} -- half of them call-structured: [request change] analyse collect, mostly into the same list -- on one StatefulTokenizer, then a probe (analyse + collect into a possibly reused list) compared in outcome, boundaries, word ids, every requested field and the on-demand split (split_into A/B) of every morpheme with (1) a fresh tokenizer carrying the same accumulated field set and (2) a fresh tokenizer of the same mode given the user's field request (default or last set_subset); plus sudachipy sessions (module built from the working tree): 1..5 tokenize calls with per-call mode override / out= reuse / rejected texts, then a probe call compared in boundaries, word ids, every requested field and tokenizer.mode with a fresh Tokenizer of the same mode and fields; non-trivial = the history holds at least one analysis and the probe yields tokens");
+    sink.rule("per generated dictionary (as in C09, with DefaultInputTextPlugin + length-changing rewrite.def and a path rewrite plugin that fails on '!'): a pool of texts (empty, short, long, oversized for start_build, oversized after rewriting, late-failing) and random sequences of 1..9 operations {set_mode, set_subset (all / random / narrow requests), analyse, new list, collect into a possibly reused list, split_into, lookup, another tokenizer collecting into the shared list} -- half of them call-structured: [request change] analyse collect, mostly into the same list -- on one StatefulTokenizer, then a probe (analyse + collect into a possibly reused list) compared in outcome, boundaries, word ids, every requested field and the on-demand split (split_into A/B) of every morpheme with (1) a fresh tokenizer carrying the same accumulated field set and (2) a fresh tokenizer of the same mode given the user's field request (default or last set_subset); plus a slice run on the INSTANTIATED machine (Proofs/TokStateConcrete.v: stages = Tokenizer.tokenize_model's, word infos under the loaded subset): small dictionaries shipped as tables, texts of at most 12 characters, the whole history replayed in Coq and the probe compared in byte ranges and word ids; plus sudachipy sessions (module built from the working tree): 1..5 tokenize calls with per-call mode override / out= reuse / rejected texts, then a probe call compared in boundaries, word ids, every requested field and tokenizer.mode with a fresh Tokenizer of the same mode and fields; non-trivial = the history holds at least one analysis and the probe yields tokens");
     let res = prepare_resources(&args.work);
     let cfg = config_json(&res, "");
     if let Some(p) = &args.replay {
         let v: Value = serde_json::from_str(&std::fs::read_to_string(p).unwrap()).unwrap();
         let c = &v["case"];
+        if c["kind"] == "c10-concrete" {
+            let w = conc_world(c["csv"].as_str().unwrap(), c["psm"].as_bool().unwrap(), c["rewrite"].as_u64().unwrap() as u8).expect("dictionary of the replayed case");
+            let pool: Vec<Txt> = c["pool"].as_array().unwrap().iter().map(|t| if let Some(s) = t.as_str() { Txt::Plain(s.to_string()) } else if t.get("oversized").is_some() { Txt::Oversized } else { Txt::CommitOverflow }).collect();
+            let ops: Vec<Op> = c["ops"].as_array().unwrap().iter().map(op_from).collect();
+            println!("lexicon:\n{}\npool: {:?}\ninitial mode: {}\nops: {:?}", w.csv, c["pool"], c["initial_mode"], ops);
+            conc_case(&mut sink, &w, &pool, c["initial_mode"].as_u64().unwrap() as u8, &ops, c["probe"].as_u64().unwrap() as usize, c["probe_list"].as_u64().unwrap() as usize, true);
+            sink.finish();
+            return;
+        }
         if c["kind"] == "py-history" || c["kind"] == "py-history-run" {
             let mut rng = Rng::new(args.seed);
             python_stage(&mut sink, args, &mut rng, if c["kind"] == "py-history" { Some(c["session"].clone()) } else { None });
@@ -822,5 +1051,7 @@ pub fn run(args: &Args) {
     }
     let mut prng = Rng::new(args.seed ^ 0x5079);
     python_stage(&mut sink, args, &mut prng, None);
+    let mut crng = Rng::new(args.seed ^ 0xC0C);
+    concrete_stage(&mut sink, args, &mut crng);
     sink.finish();
 }
